@@ -68,6 +68,9 @@ def corrupt(e, i):
         e["r"] = {"n": [], "r": {"k": "int", "g": "int8", "b": [0, 0, 0, 0, 0, 0, 0, 77]}}
         return e, "C0"
     if ev == "hist":
+        if i % 2 == 0 and e.get("hooked") == 1 and e["states"] and e["kind"] != "dec":
+            e["states"][-1]["e"][2] += 1          # one ordinal too many in the recorded encoder table
+            return e, "C11.state"
         e["probes"][0]["eu"] = e["probes"][0]["eu"] + [1]
         return e, "C11.encodeBytes"
     if ev == "fault":
